@@ -668,6 +668,13 @@ def deep_alphas(d):
             out.append([i == r for i in range(m)])
         for i in hub:
             out.append([j in hub and j != i for j in range(m)])
+        # two spokes (a path through the hub), alone and closed by the rim path between their ends (a cycle through the hub)
+        ends = {i: [v for v in edges[i] if v != 0][0] for i in hub}
+        for a_, b_ in itertools.combinations(hub, 2):
+            out.append([j in (a_, b_) for j in range(m)])
+            lo_, hi_ = sorted((ends[a_], ends[b_]))
+            between = [r for r in rim if lo_ <= min(edges[r]) and max(edges[r]) <= hi_ and abs(edges[r][0] - edges[r][1]) == 1]
+            out.append([j in (a_, b_) or j in between for j in range(m)])
         return out
     if f in ("active_edges_single_cycle", "active_edges_single_path", "active_edges_acyclic"):
         m = len(_edges_of(d))
